@@ -148,12 +148,22 @@ def nest(kind, depth):
                 + "U()(" * depth + "a" + ")" * depth + "; }\n")
     if kind == "stmts":
         return "pragma circom 2.0.0;\nfunction f(a) { " + "a = a + 1; " * depth + "return a; }\n"
+    # right-nested arithmetic over signals whose innermost operand has no known value / degree (a call on a signal):
+    # propagation needs one pass per level, and no pass may cost more than the size of the expression
+    head = "pragma circom 2.0.0;\nfunction g(x) { return x + 1; }\ntemplate T() { signal input a; signal output b; "
+    if kind == "rnest":
+        return head + "b <-- " + "1 + (a + " * depth + "g(a)" + ")" * depth + "; }\n"
+    if kind == "horner":
+        return head + "b <-- " + "3 + a * (" * depth + "g(a)" + ")" * depth + "; }\n"
+    if kind == "rcond":
+        return head + "var v = g(a); if (" + "1 + (v * " * depth + "v" + ")" * depth + " == 0) { b <== a; } else { b <== 0; } }\n"
     if kind == "comment":
         return "pragma circom 2.0.0;\n" + "/* x */ " * depth + "\nfunction f(a) { return a; }\n"
     return ""
 
 
-NEST_KINDS = ["paren", "unary", "sum", "ternary", "block", "if", "else", "while", "index", "array", "tuple", "anon", "stmts", "comment"]
+NEST_KINDS = ["paren", "unary", "sum", "ternary", "block", "if", "else", "while", "index", "array", "tuple", "anon", "stmts", "comment",
+              "rnest", "horner", "rcond"]
 MODEST_DEPTH = 100     # the property speaks of inputs of modest size
 
 
